@@ -115,6 +115,14 @@ CHECKS = {
             "dataset, wind/depth arrays, coordinate arrays, owning buffers, query lists and keyword dicts must be unchanged.",
             "plot, to_orcaflex and to_zarr are skipped; from_<model> readers are covered by C12's native-unmodified clause.",
             "3 C17"),
+    "C06": ("exploration", "bex", "exhaustive differential exploration of dataset layouts and position fillings (batch vs extracted single spectrum)",
+            "Every layout of 0-3 non-spectral dimensions from {time, site, lat, lon, part} in every order with sizes in {1,2,3}, filled from "
+            "a menu of 30 pairwise distinct spectra with per-position wind/depth; for ~45 operations the batch result at every position "
+            "must equal the result on the extracted single spectrum, replacing one spectrum must leave all other positions bitwise "
+            "unchanged, all 900 ordered pairs of menu spectra on a 2-position layout, and Dataset accessor == efth accessor.",
+            "Quick covers all 0/1/2-dim layouts and every 4th 3-dim layout, and 12 operations for the ordered pairs. gamma/alpha/fp are "
+            "compared at 2e-6 (float32-derived). Partitioning an already partitioned layout is out of domain.",
+            "3 C06"),
 }
 
 PENDING = {
